@@ -175,6 +175,11 @@ inductive Sent where
 the driver renders what the fake broker decoded: `#m<magic>` for Produce, `#<MemberID>/<members>` for LeaveGroup -/
 def bodyModel (a : ApiMethods) (groups : List String) (r : ReqInfo) (v : Int) : String :=
   if a.pkg == "produce" then (if r.tps.any (fun (_, ps) => !ps.isEmpty) then s!"#m{produceMagic v 0}" else "")
+  else if a.pkg == "describeconfigs" then
+    let b (x : Bool) : String := if x then "1" else "0"
+    s!"#s{b (optionArrives a.pkg "IncludeSynonyms" 1 v)}d{b (optionArrives a.pkg "IncludeDocumentation" 3 v)}"
+  else if a.pkg == "describegroups" then
+    s!"#a{if optionArrives a.pkg "IncludeAuthorizedOperations" 3 v then "1" else "0"}"
   else if a.pkg == "leavegroup" then
     let g := groups.headD ""
     let w := leaveGroupWire v "" [g ++ "-a", g ++ "-b"]
@@ -278,6 +283,15 @@ def bodyOK (key : Nat) (q : Req) (impl : String) : Bool :=
       f.startsWith "m" && ((f.drop 1).toString.splitOn ".").all fun k => match k.toInt? with
         | some k => KV.Spec.Routing.magicOK v k
         | none => false
+    else if key == 32 then
+      match f.toList with
+      | ['s', s, 'd', d] => KV.Spec.Routing.optionOK 32 "IncludeSynonyms" v (s == '1') &&
+          KV.Spec.Routing.optionOK 32 "IncludeDocumentation" v (d == '1')
+      | _ => false
+    else if key == 15 then
+      match f.toList with
+      | ['a', x] => KV.Spec.Routing.optionOK 15 "IncludeAuthorizedOperations" v (x == '1')
+      | _ => false
     else if key == 13 then
       let g := q.groups.headD ""
       match f.splitOn "/" with
